@@ -245,6 +245,9 @@ func (list *List[T]) Swap(i, j int) {
 // Does not do anything if position is negative or bigger than list's size
 // Note: position equal to list's size is valid, i.e. append.
 func (list *List[T]) Insert(index int, values ...T) {
+	if len(values) == 0 {
+		return
+	}
 
 	if !list.withinRange(index) {
 		// Append
